@@ -2,7 +2,8 @@
 # usage: seed_eval.sh <tag> <property> <demo-dir> <check-id>...
 # Confirms a seeded change in a scratch worktree (builds, suite passes, demo fails with / passes without),
 # then runs the given checks (quick tier) against that scratch checkout and files everything under /verif/seeded/<tag>/.
-# /repo itself is never modified.
+# /repo itself is never modified. SNAP=<dir> uses a snapshot (harness/, checks.json, kernels/, bin/gjv) instead of /verif,
+# so that the machinery can be edited while an evaluation of the state "as the change arrived" is running.
 set -u
 export GOFLAGS=-mod=mod GOPROXY=off GOSUMDB=off GOTOOLCHAIN=local
 tag=$1; prop=$2; demo=$3; shift 3
@@ -28,15 +29,15 @@ git apply $out/patch.diff
 echo "[$tag] applies=$applies build=$build suite_ok_pkgs=$suite suite_failures=$suitefail demo_fails_with_change=$with demo_passes_without=$without"
 # run the checks against the scratch checkout with the change (never touches /repo)
 tmp=$(mktemp -d /var/tmp/gjv-alt-XXXX)
-cp -r /verif/harness $tmp/harness
+cp -r ${SNAP:-/verif}/harness $tmp/harness
 sed -i "s|=> /repo|=> $wt|" $tmp/harness/go.mod
 mkdir -p $tmp/verif/evidence
-cp /verif/checks.json /verif/known_findings.json $tmp/verif/
-cp -r /verif/kernels $tmp/verif/
+cp ${SNAP:-/verif}/checks.json /verif/known_findings.json $tmp/verif/
+cp -r ${SNAP:-/verif}/kernels $tmp/verif/
 res=""
 for c in "$@"; do
   log=$out/check-$c.log
-  VERIF_REPO=$wt VERIF_HARNESS=$tmp/harness VERIF_DIR=$tmp/verif /verif/bin/gjv check $c --tier quick > $log 2>&1; rc=$?
+  VERIF_REPO=$wt VERIF_HARNESS=$tmp/harness VERIF_DIR=$tmp/verif ${SNAP:-/verif}/bin/gjv check $c --tier quick > $log 2>&1; rc=$?
   sed -i "s|$tmp/verif|/verif|g; s|$wt|/repo|g" $log
   nv=$(grep -c "^VIOLATION" $log)
   ni=$(grep -c "^INCONCLUSIVE" $log)
